@@ -776,7 +776,10 @@ impl LatestBlockFilterHashes {
         }
         // Update block filter hashes.
         let index = start_index_for_new + self.inner[start_index_for_old..].len();
-        self.inner.extend_from_slice(&block_filter_hashes[index..]);
+        // The new block filter hashes may be all known already.
+        if index < block_filter_hashes.len() {
+            self.inner.extend_from_slice(&block_filter_hashes[index..]);
+        }
         if end_number < last_proved_number {
             Ok(Some(end_number + 1))
         } else {
